@@ -134,17 +134,11 @@ public:
       shear_modulus(
           static_cast<NumericType>(0.125)
           * (static_cast<NumericType>(3) * p_wave_modulus.Value() + young_modulus.Value()
-             - ::std::sqrt(
-                 ::std::pow(young_modulus.Value(), 2)
-                 + static_cast<NumericType>(9) * ::std::pow(p_wave_modulus.Value(), 2)
-                 - static_cast<NumericType>(10) * young_modulus.Value() * p_wave_modulus.Value()))),
+             - YoungPWaveDiscriminantRoot(young_modulus.Value(), p_wave_modulus.Value()))),
       lame_first_modulus(
           static_cast<NumericType>(0.25)
           * (p_wave_modulus.Value() - young_modulus.Value()
-             + ::std::sqrt(::std::pow(young_modulus.Value(), 2)
-                           + static_cast<NumericType>(9) * ::std::pow(p_wave_modulus.Value(), 2)
-                           - static_cast<NumericType>(10) * young_modulus.Value()
-                                 * p_wave_modulus.Value()))) {}
+             + YoungPWaveDiscriminantRoot(young_modulus.Value(), p_wave_modulus.Value()))) {}
 
   /// \brief Constructor. Constructs an elastic isotropic solid constitutive model from a given
   /// shear modulus and Poisson's ratio.
@@ -575,6 +569,20 @@ public:
   }
 
 private:
+  /// \brief Returns the square root of E^2 + 9M^2 - 10EM, which appears when solving for the shear
+  /// modulus and Lamé's first modulus given Young's modulus E and the P-wave modulus M. This
+  /// discriminant equals (M - E)(9M - E) and vanishes for a Poisson's ratio of zero, where E = M;
+  /// it is evaluated in this factored form, which does not suffer from cancellation, and clamped at
+  /// zero so that rounding in E and M cannot make it negative and the result NaN.
+  [[nodiscard]] static constexpr NumericType YoungPWaveDiscriminantRoot(
+      const NumericType young_modulus, const NumericType p_wave_modulus) {
+    const NumericType discriminant{
+      (p_wave_modulus - young_modulus)
+      * (static_cast<NumericType>(9) * p_wave_modulus - young_modulus)};
+    return discriminant > static_cast<NumericType>(0) ? ::std::sqrt(discriminant) :
+                                                        static_cast<NumericType>(0);
+  }
+
   /// \brief Shear modulus of this elastic isotropic solid constitutive model.
   PhQ::ShearModulus<NumericType> shear_modulus;
 
